@@ -210,6 +210,12 @@ def opsPlan (_t : Tables) (kind op : String) (args : List String) : Option Strin
     let spk ← Hash.ofHex spk; let pss ← Hash.ofHex pss; let pwit ← parseHexList pwit
     let g := fun k => (kvGet fields k).getD "?"
     pure (psbtScriptsVerdict ty spk pss pwit (g "path") (g "ikx") (g "tw") (g "ts") (g "mr") (g "ik") (g "ws") (g "rs"))
+  -- LoggerAssetProvider delegates every query to the Assets it wraps
+  | "J", "plan-logger-same", [_ty, _mode, _desc, _assets, a, b] =>
+    pure (if a == b then "ok" else "bad:plan-through-LoggerAssetProvider-differs")
+  -- an input updated by two plans and given both plans' signatures must finalize
+  | "J", "psbt-finalizes", [_tag, _mode, _desc, _which, res] =>
+    pure (if res == "ok" then "ok" else "bad:psbt-updated-by-plans-does-not-finalize:" ++ res)
   | "J", "psbt-finalize", [_tag, _mode, _desc, _assets, res, fw, fs, pw, pss] =>
     pure (if res != "ok" then "bad:updated-and-signed-psbt-does-not-finalize:" ++ res
           else if fw != pw then "bad:finalized-witness-differs-from-Plan::satisfy"
